@@ -60,13 +60,16 @@ func (p *fileHandlePool) retain(pointer []byte) {
 	defer p.mu.Unlock()
 
 	if p.closed {
+		verifQ("h.retain", nil, pointer, 0, 0)
 		return
 	}
 	if entry := p.files[string(pointer)]; entry != nil {
 		entry.refs++
+		verifQ("h.retain", nil, pointer, entry.refs, 0)
 		return
 	}
 	p.files[string(pointer)] = &pooledFileHandles{refs: 1}
+	verifQ("h.retain", nil, pointer, 1, 0)
 }
 
 // release drops one reader's need for a file. The last release closes the
@@ -75,16 +78,19 @@ func (p *fileHandlePool) release(pointer []byte) {
 	p.mu.Lock()
 	entry := p.files[string(pointer)]
 	if entry == nil {
+		verifQ("h.release", nil, pointer, -1, 0)
 		p.mu.Unlock()
 		return
 	}
 	entry.refs--
 	if entry.refs > 0 {
+		verifQ("h.release", nil, pointer, entry.refs, 0)
 		p.mu.Unlock()
 		return
 	}
 	idle := entry.idle
 	delete(p.files, string(pointer))
+	verifQ("h.release", nil, pointer, 0, len(idle))
 	p.mu.Unlock()
 
 	closeHandles(idle)
@@ -103,9 +109,11 @@ func (p *fileHandlePool) acquire(ctx context.Context, pointer []byte) (io.ReadSe
 		handle := entry.idle[last]
 		entry.idle[last] = nil
 		entry.idle = entry.idle[:last]
+		verifQ("h.borrow", nil, pointer, len(entry.idle), 0)
 		p.mu.Unlock()
 		return handle, nil
 	}
+	verifQ("h.open", nil, pointer, 0, 0)
 	p.mu.Unlock()
 
 	// Opening is I/O: never under the pool lock.
@@ -119,11 +127,13 @@ func (p *fileHandlePool) put(pointer []byte, handle io.ReadSeekCloser) {
 	p.mu.Lock()
 	entry := p.files[string(pointer)]
 	if p.closed || entry == nil || entry.refs == 0 {
+		verifQ("h.put", nil, pointer, 0, 0)
 		p.mu.Unlock()
 		handle.Close()
 		return
 	}
 	entry.idle = append(entry.idle, handle)
+	verifQ("h.put", nil, pointer, 1, len(entry.idle))
 	p.mu.Unlock()
 }
 
@@ -143,6 +153,7 @@ func (p *fileHandlePool) closeAll() {
 	p.closed = true
 	files := p.files
 	p.files = nil
+	verifQ("h.closeall", nil, nil, len(files), 0)
 	p.mu.Unlock()
 
 	for _, entry := range files {
